@@ -136,6 +136,11 @@ fn code<T>(r: &Result<T, RtcpParseError>) -> u8 {
 }
 
 pub fn judge(b: &[u8]) -> Verdict {
+    // parsed in place in the worker's reusable receive buffer, over the previous delivery
+    crate::arena::deliver_in_place(b, judge_here)
+}
+
+fn judge_here(b: &[u8]) -> Verdict {
     let mut v = Verdict { codes: [0; 9], violation: None, panics: 0 };
     macro_rules! typed {
         ($idx:expr, $ty:ty) => {{
@@ -352,7 +357,7 @@ pub fn enumerate_episode(
                 class,
                 detail,
                 episode: idx,
-                case: J::obj().set("deliver", hex(&d)),
+                case: J::obj().set("deliver", hex(&d)).set("previous", hex(&crate::arena::previous())),
                 provenance: base.provenance().set("base", hex(&base.bytes)).set("faults", J::Arr(script.iter().map(|f| f.to_json()).collect())),
             });
         }
@@ -431,6 +436,11 @@ impl Check for C08 {
 
     fn replay(&self, case: &J, log: Option<&mut Vec<String>>) -> Result<Option<(String, String)>, String> {
         let d = unhex(case.str_of("deliver")?)?;
+        if let Ok(prev) = case.str_of("previous").and_then(|h| unhex(h)) {
+            if !prev.is_empty() {
+                let _ = judge(&prev);
+            }
+        }
         let v = judge(&d);
         if let Some(l) = log {
             l.push(format!("deliver {} bytes; result codes {:?}", d.len(), v.codes));
@@ -440,7 +450,13 @@ impl Check for C08 {
 
     fn shrink(&self, case: &J) -> Vec<J> {
         let Ok(d) = case.str_of("deliver").and_then(|s| unhex(s)) else { return vec![] };
-        shrink_bytes(&d).into_iter().map(|b| J::obj().set("deliver", hex(&b))).collect()
+        let prev = case.str_of("previous").unwrap_or("").to_string();
+        let mut out = Vec::new();
+        if !prev.is_empty() {
+            out.push(J::obj().set("deliver", hex(&d)));
+        }
+        out.extend(shrink_bytes(&d).into_iter().map(|b| if prev.is_empty() { J::obj().set("deliver", hex(&b)) } else { J::obj().set("deliver", hex(&b)).set("previous", prev.as_str()) }));
+        out
     }
 
     fn rule(&self) -> String {
